@@ -37,6 +37,8 @@ Definition signer (o : Op) : option Z :=
   | OWithdraw owner _ _ => Some owner
   | OTransfer from _ _ => Some from
   | OEndBlock _ => None
+  (* keeper API driven by the module that owns the context: no message, no signature *)
+  | OModUpdate _ _ _ _ _ _ _ _ | OModPause _ _ | OModStart _ _ | OModKill _ _ => None
   end.
 
 (* the signer owns the stored binding *)
@@ -46,6 +48,10 @@ Definition owns_binding (s : State) (svc prov owner : Z) : Prop :=
 (* the signer is the consumer of the stored context, which no module owns *)
 Definition drives_ctx (s : State) (c : CtxId) (who : Z) : Prop :=
   exists rc, get c (ctxs s) = Some rc /\ c_cons rc = who /\ c_mod rc = 0.
+
+(* the owning module names the consumer of the stored context (CheckAuthority(..., false)) *)
+Definition names_consumer (s : State) (c : CtxId) (who : Z) : Prop :=
+  exists rc, get c (ctxs s) = Some rc /\ c_cons rc = who.
 
 (* the signer is the provider the (still active) request was addressed to *)
 Definition answers_req (s : State) (r : ReqId) (who : Z) : Prop :=
@@ -67,6 +73,10 @@ Definition rightful (cfg : Params) (s : State) (o : Op) : Prop :=
   | OStart c who _ => drives_ctx s c who
   | OKill c who _ => drives_ctx s c who
   | OUpdateCtx c who _ _ _ _ _ _ => drives_ctx s c who
+  | OModUpdate c who _ _ _ _ _ _ => names_consumer s c who
+  | OModPause c who => names_consumer s c who
+  | OModStart c who => names_consumer s c who
+  | OModKill c who => names_consumer s c who
   | _ => True
   end.
 
@@ -370,6 +380,49 @@ Proof.
   split; vm_compute; reflexivity.
 Qed.
 
+(* the keeper API driven by the owning module: the context exists and the consumer named is its own *)
+Theorem C05_auth_mod_update cfg s c who provs thr cap timeout freq total s' :
+  handle cfg s (OModUpdate c who provs thr cap timeout freq total) = Ok s' ->
+  exists rc, get c (ctxs s) = Some rc /\ c_cons rc = who.
+Proof.
+  cbn [handle]. intros H. apply h_mod_update_gen in H.
+  destruct H as (rc & t & capo & E & Hw & _). eauto.
+Qed.
+
+Theorem C05_auth_mod_pause cfg s c who s' :
+  handle cfg s (OModPause c who) = Ok s' ->
+  exists rc, get c (ctxs s) = Some rc /\ c_cons rc = who.
+Proof. cbn [handle]. intros H. apply h_mod_pause_spec in H. destruct H as (rc & E & Hw & _). eauto. Qed.
+
+Theorem C05_auth_mod_start cfg s c who s' :
+  handle cfg s (OModStart c who) = Ok s' ->
+  exists rc, get c (ctxs s) = Some rc /\ c_cons rc = who.
+Proof. cbn [handle]. intros H. apply h_mod_start_spec in H. destruct H as (rc & E & Hw & _). eauto. Qed.
+
+Theorem C05_auth_mod_kill cfg s c who s' :
+  handle cfg s (OModKill c who) = Ok s' ->
+  exists rc, get c (ctxs s) = Some rc /\ c_cons rc = who.
+Proof. cbn [handle]. intros H. apply h_mod_kill_spec in H. destruct H as (rc & E & Hw & _). eauto. Qed.
+
+(* cM belongs to module 99 and consumer 51: the module drives it naming 51, not naming 50; the
+   messages of 51 itself are refused (C05_auth_pause_ex) *)
+Example C05_auth_mod_ex :
+  Reach ax_cfg ax_s
+  /\ (exists s', handle ax_cfg ax_s (OModPause ax_cM 51) = Ok s')
+  /\ (exists s', handle ax_cfg ax_s (OModKill ax_cM 51) = Ok s')
+  /\ (exists s', handle ax_cfg ax_s (OModUpdate ax_cM 51 [7; 8] 2 CEmpty 0 0 0) = Ok s')
+  /\ step ax_cfg ax_s (OModPause ax_cM 50) = (ax_s, RErr)
+  /\ step ax_cfg ax_s (OModKill ax_cM 50) = (ax_s, RErr)
+  /\ step ax_cfg ax_s (OModStart ax_cM 51) = (ax_s, RErr)
+  /\ step ax_cfg ax_s (OModUpdate ax_cM 50 [7; 8] 2 CEmpty 0 0 0) = (ax_s, RErr)
+  /\ step ax_cfg ax_s (OModUpdate ax_cM 51 [] 2 CEmpty 0 0 0) = (ax_s, RErr).
+Proof.
+  split; [exact ax_reach|].
+  split; [eexists; vm_compute; reflexivity|]. split; [eexists; vm_compute; reflexivity|].
+  split; [eexists; vm_compute; reflexivity|].
+  repeat split; vm_compute; reflexivity.
+Qed.
+
 (* all of the above, as one statement *)
 Theorem C05_authority cfg s o s' : handle cfg s o = Ok s' -> rightful cfg s o.
 Proof.
@@ -385,6 +438,10 @@ Proof.
   - eapply C05_auth_kill; eauto.
   - eapply C05_auth_update_ctx; eauto.
   - eapply C05_auth_withdraw_provider; eauto.
+  - eapply C05_auth_mod_update; eauto.
+  - eapply C05_auth_mod_pause; eauto.
+  - eapply C05_auth_mod_start; eauto.
+  - eapply C05_auth_mod_kill; eauto.
 Qed.
 
 (* a message that is not sent by the rightful party changes nothing at all *)
@@ -583,7 +640,7 @@ Proof.
   - (* start *) apply Hsame; [|reflexivity]. unfold h_start, authorized in H. inv_ok H.
     match type of H with (if ?b then _ else _) = _ => destruct b end; inv_ok H; now subst.
   - (* kill *) apply Hsame; [|reflexivity]. unfold h_kill, authorized in H. inv_ok H. now subst.
-  - (* update ctx *) apply Hsame; [|reflexivity]. unfold h_update_ctx, authorized in H. inv_ok H. now subst.
+  - (* update ctx *) apply Hsame; [|reflexivity]. unfold h_update_ctx, update_ctx_tail, authorized in H. inv_ok H. now subst.
   - (* withdraw *) apply Hub; [|reflexivity]. unfold h_withdraw in H. inv_ok H.
     destruct (prov =? 0).
     + inv_ok H. subst s'.
@@ -601,6 +658,10 @@ Proof.
   - (* transfer *) unfold h_transfer in H. inv_ok H. b2p.
     cbn [max_debit]. split; [lia|]. intros x. unfold debit_of. cbn [signer max_debit].
     eapply transfer_user_bal; eauto.
+  - (* module update *) apply Hsame; [|reflexivity]. mod_shape H; reflexivity.
+  - (* module pause *) apply Hsame; [|reflexivity]. mod_shape H; reflexivity.
+  - (* module start *) apply Hsame; [|reflexivity]. mod_shape H; reflexivity.
+  - (* module kill *) apply Hsame; [|reflexivity]. mod_shape H; reflexivity.
 Qed.
 
 (* no message lowers the balance of an ordinary account other than its signer's *)
